@@ -405,6 +405,15 @@ fn short_plan(idx: u64, per_state: u64) -> Plan {
     Plan { state, kind: "short-string".into(), layer, via_tls: false, mutant: Mutant { class: "short-string".into(), bytes: s, at: 0 } }
 }
 
+/// the 3-byte strings at the two entries of the active state
+fn three_byte_plan(idx: u64) -> Plan {
+    let two = fault::short_string_count(2);
+    let three = fault::short_string_count(3) - two;
+    let s = fault::short_string(two + idx % three);
+    let layer = if idx / three == 0 { "global-raw" } else { "global-fp" };
+    Plan { state: 5, kind: "short-string".into(), layer, via_tls: false, mutant: Mutant { class: "short-string".into(), bytes: s, at: 0 } }
+}
+
 pub fn run(cfg: &Cfg) -> Report {
     let seed = cfg.seed;
     let mut total = Report::new();
@@ -466,11 +475,10 @@ pub fn run(cfg: &Cfg) -> Report {
         total.merge(rep);
     }
     if cfg.wants(3) {
-        // all short byte strings at the PDU parser entries, in every state
-        let maxlen = if cfg.quick() { 2 } else { 3 };
-        let per_state = fault::short_string_count(maxlen);
-        // entries: slow-path and fast-path (flags 0) in all six states, fast-path with flags 1, 2, 3 before activation and
-        // in the active state
+        // all short byte strings at the PDU parser entries, in every state: strings of up to 2 bytes at all 18 entries;
+        // thorough adds the 3-byte strings at the slow-path and fast-path entries of the active state (every case needs
+        // a freshly activated session, 16.8 M strings per entry)
+        let per_state = fault::short_string_count(2);
         let n = per_state * (6 * 2 + 3 * 2);
         let rep = par_run(cfg, n, 4096, |idx, rep| {
             mon::begin_case(6, 3, idx, seed);
@@ -480,8 +488,22 @@ pub fn run(cfg: &Cfg) -> Report {
                 judge(&plan, &o, rep);
             }
         });
-        total.count(&format!("short_strings_maxlen{}_x6_states_x2_entries", maxlen), n);
+        total.count("short_strings_maxlen2_x18_entries", n);
         total.merge(rep);
+        if !cfg.quick() {
+            let three = fault::short_string_count(3) - per_state;
+            let n = three * 2;
+            let rep = par_run(cfg, n, 4096, |idx, rep| {
+                mon::begin_case(6, 4, idx, seed);
+                let plan = three_byte_plan(idx);
+                if let Ok(o) = run_plan(&plan) {
+                    rep.nontrivial(idx ^ 0x3333_0000_0000);
+                    judge(&plan, &o, rep);
+                }
+            });
+            total.count("short_strings_len3_active_state_x2_entries", n);
+            total.merge(rep);
+        }
     }
     total
 }
@@ -505,7 +527,8 @@ pub fn replay(cfg: &Cfg, v: &Value) -> Report {
                 }
             }
             2 => random_plan(a[3], a[2]),
-            _ => short_plan(a[2], fault::short_string_count(if cfg.quick() { 2 } else { 3 })),
+            4 => three_byte_plan(a[2]),
+            _ => short_plan(a[2], fault::short_string_count(2)),
         }
     } else {
         Plan::from_json(v)
